@@ -232,11 +232,13 @@ class Dumper:
                 continue
             fields.append((f, self.value(v, cls, f)))
         if isinstance(o, T.Type):
+            raw = (o._can_be_true, o._can_be_false)
             for prop in ("can_be_true", "can_be_false"):
                 try:
                     fields.append((prop, bool(getattr(o, prop))))
                 except Exception as e:  # noqa: BLE001
                     fields.append((prop, f"<{type(e).__name__}>"))
+            o._can_be_true, o._can_be_false = raw  # leave the lazy cache slots as we found them
             if isinstance(o, T.CallableType):
                 dfn = o.definition
                 if isinstance(dfn, N.Decorator):
@@ -260,6 +262,13 @@ class Dumper:
                 fields.append((f, self.table(v, ti.fullname)))
             elif f == "mro":
                 fields.append((f, ("L", [self.ref(c) for c in v])))
+            elif f == "_promote":
+                # Backward promotions (int -> native int) belong to the module defining the native int class: semanal
+                # appends them to builtins.int when that class is analysed and fixup re-creates them from the class's
+                # alt_promote on load ("Hack" in NodeFixer.visit_type_info), in load order.  Compare the rest, as a set.
+                own = [p for p in v if not (isinstance(p, self.T.Instance) and not isinstance(p.type, self.N.FakeInfo)
+                                            and p.type.alt_promote is not None and p.type.alt_promote.type is ti)]
+                fields.append((f, ("S", sorted((self.value(x) for x in own), key=repr))))
             else:
                 fields.append((f, self.value(v, cls, f)))
         sa = ti.special_alias
@@ -385,14 +394,37 @@ TOLERATED = [
      lambda a, b: isinstance(a, tuple) and a[:2] == ("ref", "FakeInfo") and isinstance(b, tuple) and b[:2] == ("ref", "TypeInfo"),
      "fresh node has no `info` back pointer (FakeInfo) but the loaded one points to its enclosing class: "
      "nodes.set_info() derives it from the enclosing TypeInfo for every member on load; gaining it loses nothing"),
+    ("info",
+     lambda a, b: False,  # implemented in tolerated(): loaded info == enclosing class while fresh names another class
+     "`info` is never stored and by design re-derived as the enclosing class; a fresh member whose info names a foreign "
+     "class (plugins/attrs.py magic attributes) cannot be represented — loaded value is the enclosing class"),
 ]
+
+
+def _enclosing_suffix(path: tuple) -> str:
+    """Dotted names of the classes the path descends through (…/TypeInfo.names/<name>/…)."""
+    names = []
+    for i, p in enumerate(path[:-1]):
+        if p in (("f", "TypeInfo.names"), ("f", "MypyFile.names")) and isinstance(path[i + 1], str):
+            names.append((p[1], path[i + 1]))
+    cls = [n for kind, n in names[:-1]]  # all but the member itself
+    return ".".join(cls)
 
 
 def tolerated(path: tuple, a: Any, b: Any) -> bool:
     if not path or not isinstance(path[-1], tuple):
         return False
     f = path[-1][1].split(".", 1)[1]
-    return any(f == tf and pred(a, b) for tf, pred, _ in TOLERATED)
+    if any(f == tf and pred(a, b) for tf, pred, _ in TOLERATED):
+        return True
+    if (f == "info" and isinstance(a, tuple) and isinstance(b, tuple) and a[:2] == ("ref", "TypeInfo")
+            and b[:2] == ("ref", "TypeInfo")):
+        # `info` is never stored: by design it is re-derived as the ENCLOSING class (nodes.set_info).  A fresh member
+        # whose info names another class (plugins/attrs.py gives the Vars of its magic attributes class the info of
+        # the attribute's own type) cannot be represented; the loaded value is the enclosing class, as designed.
+        suf = _enclosing_suffix(path)
+        return bool(suf) and (b[2] == suf or b[2].endswith("." + suf))
+    return False
 
 
 def field_of(path: tuple) -> str:
@@ -412,3 +444,28 @@ def brief(x: Any, n: int = 160) -> str:
 
 def show_path(path: tuple) -> str:
     return "/".join(p[1] if isinstance(p, tuple) else str(p) for p in path)
+
+
+def strip_backward_promotions(tree: Any) -> list[tuple[Any, list]]:
+    """Temporarily remove the int -> native-int promotions that fixup re-creates on load (see Dumper.type_info);
+    returns [(TypeInfo, original list)] for restoring."""
+    import mypy.nodes as N
+    import mypy.types as T
+
+    saved: list[tuple[Any, list]] = []
+
+    def visit(names: Any) -> None:
+        for sym in names.values():
+            node = sym._node
+            if isinstance(node, N.TypeInfo) and not isinstance(node, N.FakeInfo) and node.module_name == tree.fullname:
+                if sym.cross_ref is None:
+                    own = [p for p in node._promote
+                           if not (isinstance(p, T.Instance) and not isinstance(p.type, N.FakeInfo)
+                                   and p.type.alt_promote is not None and p.type.alt_promote.type is node)]
+                    if len(own) != len(node._promote):
+                        saved.append((node, node._promote))
+                        node._promote = own
+                    visit(node.names)
+
+    visit(tree.names)
+    return saved
